@@ -1,4 +1,4 @@
-import Mimium.Proofs.ModResLetPriv
+import Mimium.Proofs.ModResOrder
 /-!
 # C17 — Module privacy and name resolution
 
@@ -8,7 +8,7 @@ the compiler by the correspondence run of `./check C17`.
 
 Quantifiers.  Every theorem ranges over **all** walk sequences `evs : List Ev` — a superset of the walks
 `events p` of all inline module trees `p : List Item`, any depth, any number of members, any mix of
-`fn` / `mod` / `use` / `use {..}` / `use *` / `pub use` —, over **every use-site position**, given as an arbitrary current
+`fn` / `mod` / `use` / `use {..}` / `use *` / `pub use` / `let` / `pub let` —, over **every use-site position**, given as an arbitrary current
 module path `cur` and an arbitrary stack `locals` of lexical scopes, over every set `known` of collected names, and
 over **every reference form** `Ref` (plain identifier, qualified path with ≥ 2 segments; the parser lowers a
 one-segment path to a plain identifier, `lower.rs`).
@@ -26,6 +26,20 @@ What is proved.
 * `C17_resolves_to_denoted_*`: lookup order (absolute, then relative to the current module; innermost enclosing
   module first for plain identifiers), the flat mangled name space is the tree's path name space, uniqueness.
 * `C17_local_shadows_import*`: a lexically bound name is never rewritten, whatever is imported.
+
+* Programs with `let` items (second half of the file; helper lemmas in `Proofs/ModResLet.lean`, `ModResLetPriv.lean`,
+  `ModResOrder.lean`).  The resolver walks ONE flattened chain of all items of all modules with a mutable module
+  context; `C17_spine_context_is_top_level` / `C17_site_result_is_what_the_pass_computes`: the context is `[]` between
+  items and every item is resolved on its own under the context of its own name.
+  `C17_item_order_irrelevant_for_privacy` (top-level `let`, any right-hand side, across ANY items that do not bind its
+  identifiers), `…_any_item` / `…_member` (functions and lets in any module, across items unrelated to the item's map
+  key): same resolved body, same diagnostics, wherever the item stands.  The walk of the pinned tree before /repo
+  8a25d9f and the walk of seeded change C17c are machine-checked counterexamples (`C17_item_order_relevant_*`).
+  `C17_site_context_is_enclosing_module_*` + `C17_no_private_route_program`: in programs without re-exports, duplicate
+  functions and let-name clashes (`letNamesFresh`), no accepted reference occurrence inside any item names a private
+  member of a module that does not enclose the item.  `C17_let_context_by_plain_name_refuted` (finding F12-letctx) and
+  `C17_module_let_is_global*`, `C17_let_visibility_ignored` (finding F12-letglobal) say what the code does with
+  module-level `let`s instead.
 
 What is not proved here: that `typing.rs` then binds the returned name lexically (definitions are visible only
 after their statement) and evaluation — both are only exercised by the correspondence (`Model/ModResIO.lean`).
@@ -406,6 +420,49 @@ theorem C17_model_variants_base (info : Info) (known : Sym → Bool) (e : Expr) 
     (ls : List (List Sym)) : convertExprV false false info known cur ls e = convertExpr info known cur ls e :=
   convertExprV_ff info known e cur ls
 
+/-- **item order is irrelevant, for every kind of item** (walk form): a function or a `let`, at top level or inside any
+module, is resolved to the same right-hand side / body with the same diagnostics after the prefix `A` and after
+`A ++ B` of the flattened program, for all `A`, `B`, `C`, provided `B` is unrelated to the item: no event of `B`
+writes or reads the item's map key (`Ev.indep`: a binder with another key, a module opening, a `use` whose looked-up
+paths and exported names differ from the key) and `B` binds no identifier occurring in the item's body.
+`ModuleInfo` itself is *not* equal at the two places (its maps are reordered); it is indistinguishable for lookups
+(`Info.Equiv`, `lowerInfo_moved`). -/
+theorem C17_item_order_irrelevant_for_privacy_any_item (A B C : List Ev) (ev : Ev) (hb : ev.isBinder = true)
+    (tail : Expr) (hB : ∀ b ∈ B, b.indep ev.key) (hvars : ∀ s ∈ ev.body.vars, s ∉ binders B) :
+    siteResult (lowerInfo (A ++ ev :: (B ++ C))) (knownOfT (A ++ ev :: (B ++ C)) tail) [] A ev =
+      siteResult (lowerInfo (A ++ B ++ ev :: C)) (knownOfT (A ++ B ++ ev :: C) tail) [] (A ++ B) ev :=
+  siteResult_moved A B C ev hb tail hB hvars
+
+/-- … module-tree form for the members of a module `m` (at top level, between any items `J₁`, `J₂`): a function or
+`let` member may stand before or after sibling items `I₂` that are unrelated to it. -/
+theorem C17_item_order_irrelevant_for_privacy_member (J₁ J₂ I₁ I₂ I₃ : List Item) (mp : Bool) (m : Name) (it : Item)
+    (ev : Ev) (hit : it.events [m] = [ev]) (hb : ev.isBinder = true) (tail : Expr)
+    (hB : ∀ b ∈ eventsL [m] I₂, b.indep ev.key) (hvars : ∀ s ∈ ev.body.vars, s ∉ binders (eventsL [m] I₂)) :
+    let P₁ := events (J₁ ++ .mod mp m (I₁ ++ it :: (I₂ ++ I₃)) :: J₂)
+    let P₂ := events (J₁ ++ .mod mp m (I₁ ++ I₂ ++ it :: I₃) :: J₂)
+    let A := events J₁ ++ .modOpen [] m :: eventsL [m] I₁
+    siteResult (lowerInfo P₁) (knownOfT P₁ tail) [] A ev =
+      siteResult (lowerInfo P₂) (knownOfT P₂ tail) [] (A ++ eventsL [m] I₂) ev := by
+  intro P₁ P₂ A
+  have h := siteResult_moved A (eventsL [m] I₂) (eventsL [m] I₃ ++ events J₂) ev hb tail hB hvars
+  have e1 : P₁ = A ++ ev :: (eventsL [m] I₂ ++ (eventsL [m] I₃ ++ events J₂)) := by
+    simp only [P₁, A, events, eventsL_append, eventsL, Item.events, hit, List.nil_append, List.append_assoc,
+      List.cons_append]
+  have e2 : P₂ = A ++ eventsL [m] I₂ ++ ev :: (eventsL [m] I₃ ++ events J₂) := by
+    simp only [P₂, A, events, eventsL_append, eventsL, Item.events, hit, List.nil_append, List.append_assoc,
+      List.cons_append]
+  rw [e1, e2]
+  exact h
+
+/-- the independence hypothesis is needed: moving `pub fn f` across a `use f` that looks its key up changes what the
+alias `f` stands for (`mod a { pub fn f(){1.0}  use f }` vs `mod a { use f  pub fn f(){1.0} }`). -/
+theorem C17_item_order_relevant_for_related_use :
+    get? (lowerInfo (events [.mod false 1 [.fn true 4 [] (.lit 1), .use false [4] .single]])).alias [4] = some [1, 4] ∧
+    get? (lowerInfo (events [.mod false 1 [.use false [4] .single, .fn true 4 [] (.lit 1)]])).alias [4] = some [4] ∧
+    ¬ (Ev.use [1] false [4] .single).indep (Ev.fn [1] true 4 [] (.lit 1)).key := by
+  refine ⟨by decide +kernel, by decide +kernel, ?_⟩
+  simp [Ev.indep, Ev.key, useKeys]
+
 /-! ### which module an item is resolved in -/
 
 /-- a `let` item standing in module `pre` (top level: `[]`) is resolved under context `pre`, provided every
@@ -598,5 +655,23 @@ example :
   intro pre' p' e' h
   simp [events, eventsL, Item.events, letAfter] at h
   exact Or.inr h.1
+
+/-- `C17_item_order_irrelevant_for_privacy_any_item`: `mod vault { pub fn probe(){ secret() }  fn secret(){42.0} }` — the
+member `probe` may cross its sibling `secret` (different key, binds `vault$secret`, not plain `secret`); at both
+places the reference resolves to the private sibling and is accepted (same module). -/
+example :
+    let ev : Ev := .fn [1] true 9 [] (.call (.var [2]))
+    let A : List Ev := [.modOpen [] 1]
+    let B : List Ev := [.fn [1] false 2 [] (.lit 42)]
+    ev.isBinder = true ∧ (∀ b ∈ B, b.indep ev.key) ∧ (∀ s ∈ ev.body.vars, s ∉ binders B) ∧
+    siteResult (lowerInfo (A ++ ev :: (B ++ []))) (knownOfT (A ++ ev :: (B ++ [])) .unit) [] A ev
+      = (.lam [] (.call (.var [1, 2])), []) ∧
+    siteResult (lowerInfo (A ++ B ++ ev :: [])) (knownOfT (A ++ B ++ ev :: []) .unit) [] (A ++ B) ev
+      = (.lam [] (.call (.var [1, 2])), []) := by
+  refine ⟨rfl, ?_, by decide, by decide +kernel, by decide +kernel⟩
+  intro b hb
+  simp only [List.mem_singleton] at hb
+  subst hb
+  simp [Ev.indep, Ev.key]
 
 end Mimium.ModRes
